@@ -55,7 +55,7 @@ CHECK_TEXT = {
         "That DuckDB's arrow table holds the statement's rows in result order is assumed; the bounded tier exercises it on the real stack (bounded, not proof).",
     },
     "C01": _o("Deductive slice: connect sets the session time zone to UTC; fetchmany/fetchone/fetchall return the cells of the held arrow table unchanged, each row once; the type-mapping rewrites store FLOAT as DOUBLE, "
-              "VARIANT/OBJECT/ARRAY as JSON and TIMESTAMP_NTZ as TIMESTAMP and leave every other type alone. The value conversions (DuckDB, pyarrow) "
+              "VARIANT/OBJECT/ARRAY as JSON, TIMESTAMP_NTZ as TIMESTAMP, INT/SMALLINT/TINYINT and a bare NUMBER as BIGINT and leave every other type alone; CREATE TABLE ... CLONE s becomes CREATE TABLE ... AS SELECT * FROM s (one star, no filter). The value conversions (DuckDB, pyarrow) "
               "are outside any contract on fakesnow code: bounded round trips over every supported column type x boundary values x write path decide them. Known finding (NUMBER(p,0) wider than 18 digits read back as Decimal) printed.",
               "Not proof for the property as a whole: conversions by DuckDB/pyarrow are exercised on the stated bound only. Trusted: A-DUCK, A-ARROW."),
     "C02": _o("Deductive slice: checks.equal is Snowflake identifier equality for all identifier pairs; upper_case_unquoted_identifiers turns exactly the unquoted identifiers into upper-case copies and leaves every other node untouched, "
@@ -64,17 +64,17 @@ CHECK_TEXT = {
               "(lower/UPPER/mIxEd/random, quoted upper-case naming) against the all-upper baseline. Known finding (information_schema column names reported in lower case) printed.",
               "Not proof for the property as a whole. Trusted: sqlglot's case-insensitive parsing and Expression.transform, DuckDB's case-insensitive resolution."),
     "C09": _o("Deductive slice: extract_comment_on_table records (the statement's own table, a declared comment); side-table SQL builders record a comment / text lengths for exactly catalog.schema.table as an upsert; _execute runs them right after a statement that declares a comment / text lengths, "
-              "for the statement's own table on the cursor's connection; Snowflake type names/precision/scale come from the proved rowtype table. Bounded: DDL histories against a reference catalog over all metadata surfaces. "
+              "for the statement's own table on the cursor's connection; [db.]information_schema.columns in any letter case is redirected to the Snowflake-vocabulary view with its qualifiers kept; DROP SCHEMA always cascades; Snowflake type names/precision/scale come from the proved rowtype table. Bounded: DDL histories against a reference catalog over all metadata surfaces. "
               "Known findings (4) printed.",
               "Not proof for the property as a whole: the information_schema / SHOW SQL is DuckDB's. Trusted: A-DUCK, A-SQLGLOT, A-WF, A-PURE."),
     "C10": _o("Deductive slice: every statement goes through the whole transform pipeline in the fixed order and a database created by a statement gets the macros the rewrites rely on; "
-              "VALUES columns are named COLUMN1..n; DATEADD of a day-or-larger part to a DATE is cast back to DATE; REGEXP_REPLACE long forms are rejected, short ones made global; TO_NUMBER's optional arguments are told apart as documented. "
-              "Bounded: each function of the property x argument lists x syntactic contexts against Snowflake's documented results. Known findings (3) printed.",
-              "Not proof for the property as a whole: value/type semantics of each rewrite are DuckDB's on the rewritten SQL; node-level rewrite functions are not under contract (A-TX)."),
+              "VALUES columns are named COLUMN1..n; DATEADD of a day-or-larger part to a DATE is cast back to DATE; REGEXP_REPLACE long forms are rejected, short ones made global; TO_NUMBER's optional arguments are told apart as documented; TO_DECIMAL/TO_NUMERIC and the TRY_ forms cast to DECIMAL(p default 38, s default 0) with CAST resp. TRY_CAST and reject a format argument; TO_DATE casts to DATE, TO_TIMESTAMP to TIMESTAMP (NTZ), TO_TIMESTAMP_NTZ parses with the ISO format; IDENTIFIER(x) is the unquoted identifier x; SAMPLE defaults to BERNOULLI; ARRAY_AGG (windowed or not) is wrapped in TO_JSON once; DATEADD over a string literal casts it to TIMESTAMP. "
+              "Bounded: each function of the property x argument lists x syntactic contexts against Snowflake's documented results. Known findings (4) printed.",
+              "Not proof for the property as a whole: value/type semantics of each rewrite are DuckDB's on the rewritten SQL; the other node-level rewrite functions are not under contract (A-TX)."),
     "C11": _o("Deductive slice: the order-sensitive JSON rewrites are applied in the order their correctness depends on, for every statement; v['k'] / v[n] become the extraction of $.k / $[n]; every path extraction is parenthesised whatever its parent; "
-              "FLATTEN VALUE::varchar is the raw text wherever the flatten sits in the SELECT; VARIANT/OBJECT/ARRAY types are JSON. Bounded: JSON documents x paths x casts x contexts against navigating the same "
+              "FLATTEN VALUE::varchar is the raw text wherever the flatten sits in the SELECT; VARIANT/OBJECT/ARRAY types are JSON; ARRAY_SIZE is CASE WHEN json_array_length(v) THEN json_array_length(v) END without a default; TRY_PARSE_JSON is a TRY_CAST to JSON; SPLIT is wrapped in to_json; UPPER/LOWER over an extraction read its raw text. Bounded: JSON documents x paths x casts x contexts against navigating the same "
               "document in Python. Known findings (6) printed.",
-              "Not proof for the property as a whole: JSON semantics are DuckDB's json extension; node-level rewrites not under contract (A-TX)."),
+              "Not proof for the property as a whole: JSON semantics are DuckDB's json extension; the other node-level rewrites are not under contract (A-TX)."),
     "C12": _o("Deductive slice: merge() produces candidates + one mutation per WHEN clause in clause order + counts, parses each generated statement once, passes non-MERGE statements through and fails only for a MERGE; "
               "identifier equality used for source columns is proved. Bounded: MERGE clause combinations x data against a Python reference of Snowflake's MERGE. Known findings (4) printed.",
               "Not proof for the property as a whole: row-level semantics of the generated SQL are DuckDB's; _create_merge_candidates/_mutations/_counts have assumed contracts."),
